@@ -323,3 +323,16 @@ def replay(case, ctx):
         e2e_pair(ctx, case["iso3"], case["options"])
     else:
         raise RuntimeError("unknown replay kind %r" % kind)
+
+
+def _fuzz_direct(ctx):
+    def body(case):
+        c, k = case
+        check_constants(ctx, c, c)
+        metamorphic(ctx, c, k)
+    return st.tuples(crop_constants(), st.floats(0.001, 1.0)), body
+
+
+# coverage-guided tier (vlib/fuzz.py): outdoor crops and greenhouses on generated constants
+FUZZ_IMPORTS = ["src.food_system.outdoor_crops", "src.food_system.greenhouses", "src.food_system.food"]
+FUZZ_TARGETS = {"direct": (_fuzz_direct, 600, 40000, 2)}
